@@ -1,3 +1,4 @@
+import Props.SchedTie
 import TaskModel.Sched.MonC06
 import Props.C01
 /-!
